@@ -33,3 +33,25 @@ build_harness() {
     exit $rc
   ) 9>"$td/.lock"
 }
+
+FUZZ="$ROOT/fuzz"
+fuzz_bin() { echo "$FUZZ/target/x86_64-unknown-linux-gnu/release/fuzz_all"; }
+
+# build_fuzz : (re)build the libFuzzer target against the current /repo tree (nightly toolchain, no sanitizer:
+# corgi has no unsafe code in the non-BLAS build; debug assertions and overflow checks stay on)
+build_fuzz() {
+  local stamp h log
+  stamp="$FUZZ/target/.repo-hash"; log="$FUZZ/build.log"
+  mkdir -p "$FUZZ/target"
+  h="$(repo_hash)"
+  (
+    flock 9
+    if [ ! -f "$stamp" ] || [ "$(cat "$stamp")" != "$h" ]; then
+      (cd "$FUZZ" && cargo +nightly clean --release -p corgi --target x86_64-unknown-linux-gnu >/dev/null 2>&1)
+    fi
+    (cd "$FUZZ" && cargo +nightly fuzz build -s none --fuzz-dir . >"$log" 2>&1)
+    rc=$?
+    if [ $rc -eq 0 ]; then echo "$h" > "$stamp"; else rm -f "$stamp"; fi
+    exit $rc
+  ) 9>"$FUZZ/target/.lock"
+}
